@@ -170,6 +170,26 @@ func (c *oblCtx) checkPre(call *ast.CallExpr, fn *types.Func) {
 					return true
 				})
 			}
+			// the same pass written as a map helper with an (index, item) callback over X.Fields
+			if id := identOf(call.Args[0]); id != nil && c.fn != nil && !okk {
+				obj := objOf(c.info(), id)
+				if self, _ := c.info().Defs[c.fn.Name].(*types.Func); self != nil && c.w.Funcs[self] != nil {
+					for _, vr := range virtualRanges(c.w, c.w.Funcs[self]) {
+						if vr.key != obj {
+							continue
+						}
+						if sel, ok := ast.Unparen(vr.X).(*ast.SelectorExpr); ok && sel.Sel.Name == "Fields" {
+							if xid := identOf(sel.X); xid != nil {
+								for _, d := range c.defsOf(objOf(c.info(), xid)) {
+									if d != nil && strings.HasPrefix(es(d), recv+".Type()") {
+										okk = true
+									}
+								}
+							}
+						}
+					}
+				}
+			}
 			if okk {
 				c.add("OBL-PRE", call, construct, VOK, "argument is the range index over the Fields of the receiver's own struct", true)
 			} else {
